@@ -458,3 +458,59 @@ def replay_late_load_accounting(inputs, obl):
         return dict(confirmed=False, detail=f"late load completion after a cached write: accounting {cur} == {tot}, update -> {ok!r}, get -> {out.get('get')!r}")
     finally:
         shutil.rmtree(d, ignore_errors=True)
+
+
+def replay_torn_read(inputs, obl):
+    """schedule at the granularity of file-system calls: get(f) [its load is about to open the file] | update(f, NEW) is admitted next
+    to the pending load; the writer has opened (= truncated) the file and is descheduled before it writes | the load reads | the
+    writer goes on.  The get must return OLD or NEW."""
+    import builtins
+    import time
+    import klongpy.db.file_cache as fcm
+    from klongpy.db.file_cache import FileCache
+    d = tempfile.mkdtemp(prefix='c18_replay_')
+    had_open = 'open' in fcm.__dict__
+    try:
+        c = FileCache(max_memory=1000, root_path=d)
+        OLD, NEW = b'old-contents', b'new-contents'
+        with open(os.path.join(d, 'f'), 'wb') as fh:
+            fh.write(OLD)
+        opened_w, go_w, load_may_read, load_at_open = threading.Event(), threading.Event(), threading.Event(), threading.Event()
+
+        def gated_open(path, mode='r', *a, **kw):
+            if 'w' in mode and str(path).endswith(os.sep + 'f'):
+                fh = builtins.open(path, mode, *a, **kw)       # truncates
+                opened_w.set()
+                go_w.wait(10)                                  # the writer is descheduled between open() and write()
+                return fh
+            if 'r' in mode and str(path).endswith(os.sep + 'f'):
+                load_at_open.set()
+                load_may_read.wait(10)
+            return builtins.open(path, mode, *a, **kw)
+        fcm.open = gated_open
+        out = {}
+        t1 = threading.Thread(target=lambda: out.setdefault('get', _call(c.get_file, 'f')))
+        t1.start()
+        load_at_open.wait(5)
+        t2 = threading.Thread(target=lambda: out.setdefault('up', _call(c.update_file, 'f', NEW)))
+        t2.start()
+        admitted = opened_w.wait(1.5)          # was the write admitted next to the pending load?
+        load_may_read.set()
+        t1.join(5)
+        go_w.set()
+        t2.join(5)
+        try:
+            c.executor.shutdown(wait=False)
+        except Exception:
+            pass
+        g = out.get('get')
+        if t1.is_alive() or t2.is_alive():
+            return dict(confirmed=True, detail='get(f) overlapped by update(f): a call did not return')
+        if g not in (OLD, NEW):
+            return dict(confirmed=True, detail=f"get(f) [load pending]; update(f,NEW) admitted next to it, the writer has truncated the file; the load reads: "
+                                               f"the get returned {g!r} - neither the old ({OLD!r}) nor the new contents")
+        return dict(confirmed=False, detail=f"write {'admitted' if admitted else 'not admitted'} next to the pending load; the get returned {'OLD' if g == OLD else 'NEW'}")
+    finally:
+        if not had_open:
+            fcm.__dict__.pop('open', None)
+        shutil.rmtree(d, ignore_errors=True)
